@@ -138,7 +138,7 @@ def gen(ctx, mod, cfg, num, depth, asis=False, sdafter=9999):
 def replay(ctx, cases, prefixes):
     binary = vlib.go_build(ctx, "op")
     hookbin = vlib.go_build(ctx, "hookbin")
-    res = vlib.run_sharded(ctx, binary, cases, lambda i, o: ["replay", "-in", i, "-out", o, "-hookbin", hookbin], shards=6, timeout=2400, tag="op")
+    res = vlib.run_sharded(ctx, binary, cases, lambda i, o: ["replay", "-in", i, "-out", o, "-hookbin", hookbin], shards=10, timeout=2400, tag="op")
     stats = {"steps": 0, "execs": 0, "diverged": 0, "complete": 0}
     for c, rr in zip(cases, res):
         stats["steps"] += rr["steps"]
